@@ -367,7 +367,7 @@ def check(prop, tier, seed):
                         continue
                     stats["evaluations"] += 1
                     same = (il == ml) or compare_lines(il, ml, cfg.mode_for(toks), cfg.rtol, cfg.atol_rel)
-                    if not same or il == "bad-op" or ml == "bad-op":
+                    if not same or ((il == "bad-op" or ml == "bad-op") and not cfg.allow_badop):
                         if len(mismatches) < 200:
                             mismatches.append((n, op.rstrip("\n"), il, ml))
                     bucket, nontriv = cfg.classify(toks, il)
